@@ -23,9 +23,9 @@ type envSpec struct {
 	chain   [][]byte
 	unprot  envenc.Unprotected
 
-	jws  []envenc.Member
-	cose []envenc.CMember
-	crit []any // labels (string / int64); nil with critAbsent = no crit member
+	jws        []envenc.Member
+	cose       []envenc.CMember
+	crit       []any // labels (string / int64); nil with critAbsent = no crit member
 	critAbsent bool
 
 	payload []byte
